@@ -358,6 +358,8 @@ class NamesModule:
         def cond(a, b):
             if r.random() < 0.4:
                 self.features.add("condition-constant-on-left")
+                if "." in b:
+                    self.features.add("enum-condition-constant-on-left")
                 return "%s == %s" % (b, a)
             return "%s == %s" % (a, b)
         if tag is not None and r.random() < 0.65:
